@@ -103,6 +103,11 @@ def run(index, rep, tier):
         rep.check(bool(gets) and bool(puts), "R11.2", f.qualname, "memo consulted and filled", fn_where(f), "%s consults the memo before creating/looking up a taxon and records the mapping" % f.name,
                   "%s no longer consults and fills the shared taxon mapping memo" % f.qualname)
 
+    # ---- R11.5 label unification uses one folding
+    rep.rule("R11.5", "label unification: the cached folded label of a taxon and every folded query use the same folding method (shared with R10.9), so that equal labels end up on one taxon")
+    from . import c10
+    c10.folding_rule(index, rep, "R11.5")
+
     # ---- R11.3
     ns = 0
     for fi in index.methods_of(CM):
